@@ -168,6 +168,27 @@ def oracle(ctx, rng, n, max_steps=300):
         except SystemExit:
             ctx.count("rejected")
             continue
+        # hypothesis of the gap theorems (Props/C02, and gap_exchange_zero for every layout): the conduction constant between two
+        # adjacent gap cells is ONE number, whichever of the two cells it is looked up from
+        core = r.core
+        if getattr(core, '_Rcond', None) is not None and core.model == 'flow':
+            asym = 0.0
+            for i in range(int(core.n_sc)):
+                for k in range(3):
+                    j = int(core._sc_adj[i, k]) - 1
+                    if j < 0:
+                        continue
+                    kk = [q for q in range(3) if int(core._sc_adj[j, q]) - 1 == i]
+                    if not kk:
+                        asym = 1.0
+                        continue
+                    a, b = float(core._Rcond[i, k]), float(core._Rcond[j, kk[0]])
+                    asym = max(asym, abs(a - b) / max(abs(a), abs(b), 1e-300))
+            ctx.stats["worst_rcond_asymmetry"] = max(ctx.stats.get("worst_rcond_asymmetry", 0.0), asym)
+            if asym > 1e-12:
+                ctx.violation("c02-conduction-asymmetric", "gap conduction constant between two adjacent gap cells differs by %.3g "
+                              "(relative) depending on the side it is looked up from: conduction creates or destroys heat" % asym,
+                              case=case)
         state = {}
         bad = []
         cp_gap = r.core.gap_coolant.heat_capacity
